@@ -186,21 +186,32 @@ def candidates (hm : Herm) (md : Mode) (S : List Seg) : List Hit :=
 
 /-! ### segment refinement path (`_detect_with_segment_refine`) -/
 
+def subLo (r m : Nat) : Rat := (m : Rat) * (1 / ((r : Rat) + 1))
+def subHi (r m : Nat) : Rat := ((m : Rat) + 1) * (1 / ((r : Rat) + 1))
+
+/-- `use_cubic and dt > 0.0` -/
+def useCub (md : Mode) (s : Seg) : Bool := md.cubic && decide (0 < s.b.t - s.a.t)
+
+/-- the model of `g` along the segment used by the refine path: Hermite or linear -/
+def gAt (hm : Herm) (md : Mode) (s : Seg) (u : Rat) : Rat :=
+  if useCub md s then gH cfg hm s u else (1 - u) * s.g0 cfg + u * s.g1 cfg
+
+/-- linear root estimate inside the sub-interval `[lo,hi]` -/
+def subStart (glo ghi lo hi : Rat) : Rat :=
+  if glo = ghi then (lo + hi) / 2 else lo + clamp 0 1 (glo / (glo - ghi)) * (hi - lo)
+
+def subU (hm : Herm) (md : Mode) (s : Seg) (m : Nat) : Rat :=
+  let lo := subLo md.refine m
+  let hi := subHi md.refine m
+  let u0 := subStart (gAt cfg hm md s lo) (gAt cfg hm md s hi) lo hi
+  if useCub md s then newton (gH cfg hm s) (gH' cfg hm s) lo hi md.iters u0 else u0
+
 /-- sub-interval `m` of `r+1` equal parts of segment `s`; returns the candidate if the (linear or Hermite) model of
 `g` changes sign compatibly on it -/
 def subHit (hm : Herm) (md : Mode) (s : Seg) (m : Nat) : Option Hit :=
-  let step : Rat := 1 / ((md.refine : Rat) + 1)
-  let lo := (m : Rat) * step
-  let hi := ((m : Rat) + 1) * step
-  let dt := s.b.t - s.a.t
-  let cub := md.cubic && decide (0 < dt)
-  let gAt := fun u : Rat => if cub then gH cfg hm s u else (1 - u) * s.g0 cfg + u * s.g1 cfg
-  let glo := gAt lo
-  let ghi := gAt hi
-  if crossRaw cfg.dir glo ghi then
-    let u0 := if glo = ghi then (lo + hi) / 2 else lo + clamp 0 1 (glo / (glo - ghi)) * (hi - lo)
-    let u := if cub then newton (gH cfg hm s) (gH' cfg hm s) lo hi md.iters u0 else u0
-    some ⟨s.k, false, u, timeAt s u, if cub then cubicState hm s u else lerp s.a.x s.b.x u⟩
+  if crossRaw cfg.dir (gAt cfg hm md s (subLo md.refine m)) (gAt cfg hm md s (subHi md.refine m)) then
+    some ⟨s.k, false, subU cfg hm md s m, timeAt s (subU cfg hm md s m),
+      if useCub md s then cubicState hm s (subU cfg hm md s m) else lerp s.a.x s.b.x (subU cfg hm md s m)⟩
   else none
 
 def subHits (hm : Herm) (md : Mode) (s : Seg) (skip0 : Bool) : List Hit :=
